@@ -86,3 +86,40 @@ Proof.
   induction l as [|x l IH]; intros d d' H; [congruence|].
   destruct l as [|y l]; [reflexivity|]. cbn [last]. apply IH. discriminate.
 Qed.
+
+(* ---- overlap / ph_clash ---------------------------------------------------------------------- *)
+Lemma overlap_spec : forall a b, overlap a b = true <-> exists x y z, y <> [] /\ a = x ++ y /\ b = y ++ z.
+Proof.
+  induction a as [|c a IH]; intros b.
+  - simpl. split; [discriminate|]. intros [x [y [z [Hy [Ha _]]]]]. symmetry in Ha. apply app_eq_nil in Ha.
+    destruct Ha as [_ Ha]. contradiction.
+  - cbn [overlap]. rewrite orb_true_iff, is_prefix_spec, IH. split.
+    + intros [[r Hr] | [x [y [z [Hy [Ha Hb]]]]]].
+      * exists [], (c :: a), r. repeat split; [discriminate | exact Hr].
+      * exists (c :: x), y, z. repeat split; [exact Hy | rewrite Ha; reflexivity | exact Hb].
+    + intros [x [y [z [Hy [Ha Hb]]]]]. destruct x as [|x0 x].
+      * left. exists z. simpl in Ha. rewrite Ha. exact Hb.
+      * right. injection Ha as _ Ha. exists x, y, z. repeat split; assumption.
+Qed.
+
+Lemma no_clash_spec : forall ph p, ph_clash ph p = false ->
+  ~ occurs p ph /\ ~ occurs ph p
+  /\ (forall x y z, y <> [] -> p = x ++ y -> ph = y ++ z -> False)
+  /\ (forall x y z, y <> [] -> ph = x ++ y -> p = y ++ z -> False).
+Proof.
+  intros ph p H. unfold ph_clash in H.
+  apply orb_false_iff in H. destruct H as [H H4]. apply orb_false_iff in H. destruct H as [H H3].
+  apply orb_false_iff in H. destruct H as [H1 H2].
+  repeat split.
+  - intros Ho. apply contains_spec in Ho. congruence.
+  - intros Ho. apply contains_spec in Ho. congruence.
+  - intros x y z Hy Hp Hph. assert (overlap p ph = true) by (apply overlap_spec; exists x, y, z; auto). congruence.
+  - intros x y z Hy Hph Hp. assert (overlap ph p = true) by (apply overlap_spec; exists x, y, z; auto). congruence.
+Qed.
+
+Lemma no_clash_nonempty : forall ph p, ph_clash ph p = false -> p <> [] /\ ph <> [].
+Proof.
+  intros ph p H. destruct (no_clash_spec ph p H) as [H1 [H2 _]]. split; intros ->.
+  - apply H1. apply occurs_nil.
+  - apply H2. apply occurs_nil.
+Qed.
